@@ -350,7 +350,8 @@ HEADER = ('From Coq Require Import ZArith List String.\nFrom AV Require Import l
 def extract(chk: Check):
     core = REPO / 'src/AEIC/config/core.py'
     try:
-        text = py2coq.extract_deep_update(core) + py2coq.extract_config_load_order(core)
+        text = (py2coq.extract_deep_update(core) + py2coq.extract_config_load_order(core)
+                + py2coq.extract_singleton_protocol(core))
     except py2coq.Untranslatable as e:
         chk.obligations.append({'name': 'extract:config/core.py:deep_update+Config.load', 'ok': False})
         chk.broken('extract:config/core.py:deep_update', str(e))
